@@ -440,7 +440,7 @@ def entity_matching(
     """
     if isinstance(type_, CanBehaveLikeAVariable):
         return Match(type_._type_, domain=domain, variable=type_)
-    elif type_ and not isinstance(type_, type):
+    elif type_ is not None and not isinstance(type_, type):
         return Match(type_, domain=domain, variable=Literal(type_))
     return Match(type_, domain=domain)
 
@@ -454,7 +454,7 @@ def entity_selection(
     """
     if isinstance(type_, CanBehaveLikeAVariable):
         return Select(type_._type_, domain=domain, variable=type_)
-    elif type_ and not isinstance(type_, type):
+    elif type_ is not None and not isinstance(type_, type):
         return Select(type_, domain=domain, variable=Literal(type_))
     return Select(type_, domain=domain)
 
